@@ -1,12 +1,14 @@
 package main
 
 import (
+	"context"
 	"fmt"
 	"io"
 	"net/http"
 	"os"
 	"os/signal"
 	"path/filepath"
+	"runtime"
 	"strings"
 	"sync"
 	"sync/atomic"
@@ -114,6 +116,12 @@ func runConcCase(o *Oracle, c *ConcCase, rep *Report) {
 	var first atomic.Value
 	deadline := time.Now().Add(4 * time.Second) // bounded work per configuration: slow machines do fewer rounds
 	var done atomic.Int64
+	// expression trees built once and used by every goroutine (a filter object kept by the application): each call
+	// gets its own Query value, the Expr inside is the same object for all of them
+	shared := make([]updog.Expression, len(c.Queries))
+	for i := range c.Queries {
+		shared[i] = toExpr(c.Queries[i].E)
+	}
 	res := watchdog(180*time.Second, func() string {
 		var wg sync.WaitGroup
 		for g := 0; g < c.Goroutines; g++ {
@@ -124,7 +132,11 @@ func runConcCase(o *Oracle, c *ConcCase, rep *Report) {
 				for k := 0; k < c.Rounds && (k < 3 || time.Now().Before(deadline)); k++ {
 					done.Add(1)
 					qi := r.Intn(len(c.Queries))
-					got := safeExecute(idx, toQuery(&c.Queries[qi]))
+					uq := toQuery(&c.Queries[qi])
+					if k%2 == 1 {
+						uq.Expr = shared[qi]
+					}
+					got := safeExecute(idx, uq)
 					if got != want[qi] {
 						if mism.Add(1) == 1 {
 							first.Store(fmt.Sprintf("goroutine %d round %d query %s: got %s want %s", g, k, c.Queries[qi].Toks(), trunc(got, 300), trunc(want[qi], 300)))
@@ -332,6 +344,37 @@ func runGrpcConc(o *Oracle, rep *Report, r *Rng, tier string) {
 			}
 		}()
 	}
+	// an impatient client: wide ORs over many cold leaves with deadlines of a few milliseconds, given up again and
+	// again while the other clients run (what it abandons must not change anybody else's answers)
+	wg.Add(1)
+	go func() {
+		defer wg.Done()
+		wide := &Ex{Op: "O"}
+		for ci := range pool.cols {
+			for _, v := range pool.vals[ci] {
+				wide.Kids = append(wide.Kids, &Ex{Op: "E", C: hx(pool.cols[ci]), V: hx(v)})
+			}
+		}
+		if len(wide.Kids) == 0 {
+			return
+		}
+		for n0 := len(wide.Kids); len(wide.Kids) < 3000; {
+			wide.Kids = append(wide.Kids, &Ex{Op: "E", C: wide.Kids[len(wide.Kids)%n0].C, V: hx(fmt.Sprintf("cold-%d", len(wide.Kids)))})
+		}
+		req := &protoReq{Queries: protoQueries(qcaseToProto(&QCase{E: wide}, 0))}
+		for k := 0; k < per; k++ {
+			ctx, cancel := context.WithTimeout(context.Background(), time.Duration(1+k%6)*time.Millisecond)
+			s.cl.Query(ctx, req)
+			cancel()
+			// fresh cold leaves next time
+			for i := range wide.Kids {
+				if i%5 == k%5 {
+					wide.Kids[i].V = hx(fmt.Sprintf("cold-%d-%d", k, i))
+				}
+			}
+			req = &protoReq{Queries: protoQueries(qcaseToProto(&QCase{E: wide}, 0))}
+		}
+	}()
 	for g := 0; g < 8; g++ {
 		wg.Add(1)
 		go func(g int) {
@@ -558,9 +601,19 @@ func runC18(rep *Report, r *Rng, tier string) {
 	}
 	var last *AddCase
 	// past 65536 rows (the in-memory writer's bitmaps get a second container; anything keyed on 16-bit row ids shows)
-	{
-		c := &AddCase{Writer: "mem", Goroutines: 8, Total: 66000, Seed: r.U64()}
+	for _, w := range []string{"mem", "big"} {
+		c := &AddCase{Writer: w, Goroutines: 8, Total: 66000, Seed: r.U64()}
 		runAddCase(o, c, rep)
+	}
+	// more callers than CPUs: 16 goroutines while the process is limited to 4 (and to 1)
+	for _, procs := range []int{4, 1} {
+		old := runtime.GOMAXPROCS(procs)
+		for _, w := range []string{"mem", "big"} {
+			c := &AddCase{Writer: w, Goroutines: 16, Total: 8000, Seed: r.U64()}
+			runAddCase(o, c, rep)
+			rep.Count(fmt.Sprintf("gomaxprocs=%d", procs))
+		}
+		runtime.GOMAXPROCS(old)
 	}
 	for _, w := range []string{"mem", "big"} {
 		for _, t := range totals {
